@@ -216,8 +216,6 @@ template <typename OP, typename LV> inline bool op_type_matches(const LV&) {
     else { constexpr bool same = std::is_same_v<meta::remove_cvref_t<decltype(std::declval<const V&>().op)>, OP>; bool r = same; return r; }
 }
 
-inline long rank_of(const L& s) { return (long)s.size(); }
-
 // ------------------------------------------------------------------------------------------------ runners
 // FN (function descriptor) provides: id, name, op() -> functor, lazy(operands...), eager(operands...), static doms.
 template <typename FN, typename T, int K> inline Outcome run_unary(const L& s) {
